@@ -20,6 +20,17 @@ fn main() {
     }
     std::env::set_var("RUST_BACKTRACE", "0");
     std::env::set_var("RUST_LIB_BACKTRACE", "0");
+    if args[0] == "--c20-child" {
+        // a fresh process per thread program: nothing may touch the registries before this point
+        std::panic::set_hook(Box::new(|_| {}));
+        let code = props::c20::child_main(args.get(1).map(|s| s.as_str()).unwrap_or(""), args.get(2).map(|s| s.as_str()).unwrap_or(""));
+        std::process::exit(code);
+    }
+    if args[0] == "--c20-part-b" {
+        let cases = args.get(1).and_then(|s| s.parse().ok()).unwrap_or(100);
+        let seed = args.get(2).and_then(|s| s.parse().ok()).unwrap_or(1);
+        std::process::exit(props::c20::part_b_main(cases, seed));
+    }
     engine::install_panic_hook();
     bc_envelope::register_tags();
     let id = args[0].clone();
